@@ -16,7 +16,7 @@ from sim.engine_d import ledger_counts
 from sim.oracles import HALT, V, always_on, check_ledger_unique, check_quiescent
 from sim.programs import Program, gen_program
 
-from .common import Exec, history_digest, knobs_from_dict, sample_of, swarm_knobs, views_by_task
+from .common import Exec, history_digest, knobs_from_dict, ref_unusable, sample_of, swarm_knobs, views_by_task
 
 PROPERTY = "C01"
 
@@ -183,7 +183,7 @@ def run_one(seed: int, tier: str) -> dict[str, Any]:
     ref = reference(prog, knobs, seed)
     out["execs"] += 1
     out["sim_us"] += ref["sim_us"] - 1_893_456_000_000_000
-    if not ref["quiescent"] or ref["errors"]:
+    if ref_unusable(ref, prog):
         out["inconclusive"] += 1
         out["stats"]["reference_not_clean"] = 1
         return out
